@@ -11,7 +11,12 @@ func (c *FuncCtx) strOfByte(b string) string {
 	c.needDecl("str_of_byte", fmt.Sprintf("(declare-fun str_of_byte (%s) Str)", bs))
 	if !c.needed["str_of_byte_ax"] {
 		c.needed["str_of_byte_ax"] = true
-		c.axiom(fmt.Sprintf("(forall ((b %s)) (! (and (= (slen (str_of_byte b)) %s) (= (sat (str_of_byte b) %s) b)) :pattern ((str_of_byte b))))", bs, c.so.idxLit(1), c.so.idxLit(0)), "str_of_byte")
+		// the byte is recovered only for arguments that ARE bytes (an unguarded axiom contradicts 0 <= sat < 256)
+		if c.mode == ModeInt {
+			c.axiom(fmt.Sprintf("(forall ((b %s)) (! (and (= (slen (str_of_byte b)) %s) (=> (and (<= 0 b) (< b 256)) (= (sat (str_of_byte b) %s) b))) :pattern ((str_of_byte b))))", bs, c.so.idxLit(1), c.so.idxLit(0)), "str_of_byte")
+		} else {
+			c.axiom(fmt.Sprintf("(forall ((b %s)) (! (and (= (slen (str_of_byte b)) %s) (= (sat (str_of_byte b) %s) b)) :pattern ((str_of_byte b))))", bs, c.so.idxLit(1), c.so.idxLit(0)), "str_of_byte")
+		}
 	}
 	return fmt.Sprintf("(str_of_byte %s)", b)
 }
